@@ -829,6 +829,44 @@ Example ensure_dir_example :
   = [Mkdir [[98]; [97]]; Chmod [[98]; [97]]; Mkdir [[99]; [98]; [97]]; Chmod [[99]; [98]; [97]]].
 Proof. vm_compute. reflexivity. Qed.
 
+(* the relative link of a single colour tile leads to its target from wherever the tile lies *)
+Lemma strip_common_spec a : forall b p s,
+  strip_common a b = (p, s) -> exists c, a = c ++ p /\ b = c ++ s.
+Proof.
+  induction a as [|x a IH]; intros b p s H.
+  - simpl in H. injection H as <- <-. exists []. split; reflexivity.
+  - destruct b as [|y b].
+    + simpl in H. injection H as <- <-. exists []. split; reflexivity.
+    + simpl in H. destruct (str_eqb x y) eqn:E.
+      * apply str_eqb_eq in E. subst y. destruct (IH b p s H) as [c [Ha Hb]].
+        exists (x :: c). rewrite Ha at 1. rewrite Hb at 1. split; reflexivity.
+      * injection H as <- <-. exists []. split; reflexivity.
+Qed.
+
+Lemma step_dotdot st : step st dotdot = tl st.
+Proof. reflexivity. Qed.
+
+Lemma fold_step_dotdots n : forall st, fold_left step (repeat dotdot n) st = skipn n st.
+Proof.
+  induction n as [|n IH]; intro st; [reflexivity|].
+  simpl repeat. simpl fold_left. rewrite step_dotdot. rewrite IH. destruct st; [destruct n; reflexivity|reflexivity].
+Qed.
+
+Lemma relpath_resolves path start :
+  Forall safe path -> fold_left step (relpath_comps path start) (rev start) = rev path.
+Proof.
+  intro Hs. unfold relpath_comps. destruct (strip_common path start) as [p s] eqn:E.
+  destruct (strip_common_spec _ _ _ _ E) as [c [Hp Hst]]. subst path start.
+  rewrite fold_left_app, fold_step_dotdots. rewrite rev_app_distr.
+  rewrite <- (rev_length s). rewrite skipn_app, skipn_all, Nat.sub_diag. simpl.
+  apply Forall_app in Hs as [_ Hp]. rewrite (fold_step_safe p _ Hp). rewrite rev_app_distr. reflexivity.
+Qed.
+
+(* a prefix computed for a tile below k more directories is k levels too long for a tile at the usual depth *)
+Example memoised_link_prefix_escapes :
+  fold_left step (relpath_comps [[114]; [115]; [99]] [[114]; [116]; [49]; [48]]) (rev [[114]; [48]]) = [[99]; [115]].
+Proof. vm_compute. reflexivity. Qed.
+
 (* the legend file: for a digest made of hex digits, one safe name directly in the legend cache directory *)
 Lemma legend_location_resolves cwd cache_dir h ext :
   h <> [] -> Forall digitish h -> ~ In 47 (s2z ext) ->
